@@ -386,21 +386,43 @@ func (r *runner) gpuIDs() []int {
 	return out
 }
 
+// size draws a request size around the boundaries that matter: multiples of
+// the configured page size and multiples of 4 KiB (the granule that is
+// hard-wired in the buddy allocator and easily leaks into shared code), each
+// exact, one byte below, one byte above, and half a page.
 func (r *runner) size(rng *vh.Rng, maxPages int) uint64 {
 	np := uint64(1 + rng.Intn(maxPages))
-	switch rng.Intn(4) {
+	const granule = 4096
+	var n uint64
+	switch rng.Intn(10) {
 	case 0:
-		return np * r.ps // exact multiple
+		n = np * r.ps // whole pages
 	case 1:
-		return (np-1)*r.ps + 1 // one byte into the last page
+		n = (np-1)*r.ps + 1 // one byte into the last page
+	case 2:
+		n = np*r.ps - 1 // one byte short of whole pages
+	case 3:
+		n = (np-1)*r.ps + r.ps/2 // half a page
+	case 4, 5:
+		// a multiple of 4 KiB that need not be a multiple of the page size
+		n = uint64(1+rng.Intn(int(np*r.ps/granule))) * granule
+	case 6:
+		n = uint64(1+rng.Intn(int(np*r.ps/granule)))*granule + 1
+	case 7:
+		n = uint64(1+rng.Intn(int(np*r.ps/granule)))*granule - 1
 	default:
-		return (np-1)*r.ps + 1 + uint64(rng.Intn(int(r.ps)))
+		n = (np-1)*r.ps + 1 + uint64(rng.Intn(int(r.ps)))
 	}
+	if n == 0 {
+		n = 1
+	}
+	return n
 }
 
 func generate(rng *vh.Rng, hostile bool, buddy bool) Case {
 	c := Case{Hostile: hostile, Buddy: buddy}
-	c.LPS = uint64(12 + rng.Intn(5))
+	// page sizes 2^12 .. 2^16 and 2 MiB
+	c.LPS = []uint64{12, 13, 14, 15, 16, 13, 14, 16, 21}[rng.Intn(9)]
 	if buddy {
 		c.LPS = 12
 	}
